@@ -51,6 +51,7 @@ THEOREMS = [
     'C09_volume_gets_leaf_material', 'C09_compositions_exact',
     'C09_compositions_distinct', 'C09_geomcomp_name_has_composition',
     'C09_write_compositions', 'C09_block_head',
+    'C09_point_gets_leaf_material_linked',
 ]
 TRUSTED = [
     'hand-written model coq/C09/Model.v (tied by execution only); pot_fill '
